@@ -27,6 +27,11 @@ static void strto_check(size_t n, uchar *content, uchar want_end, size_t k)
     for (size_t vc_i = 0; vc_i < n; vc_i++)
         t[vc_i] = content[vc_i];
 #endif
+#if VC_FALLBACK
+    /* ghost-free bounded fallback (units/README.md): no ghost statement steps the reference machine, which otherwise supplies the
+     * assumption that the text object extends as far as the automaton has to look: the text is a NUL-terminated string instead */
+    __CPROVER_assume(t[n - 1] == 0);
+#endif
     uchar at_k = k < n ? t[k] : 0;
     char sentinel;
     char *end = &sentinel;
@@ -34,6 +39,9 @@ static void strto_check(size_t n, uchar *content, uchar want_end, size_t k)
     spec_strto_reset(t, n);
 
     STRTO_T r = STRTO_FN((const char *)t, want_end ? &end : (char **)0, BASE);
+#if VC_FALLBACK
+    spec_strto_run(t, n, BASE, STRTO_BITS, STRTO_SIGNED, 0);      /* the whole reference machine as a plain loop over the (small, concrete) text */
+#endif
 
     __CPROVER_assert(g_i < n && spec_strto_stopped(), "reference machine stands on the first character that is not part of the subject sequence");
 #if STRTO_SIGNED
